@@ -161,7 +161,7 @@ func Boot(w *World, o ProcOptions) *Proc {
 		o.Relist = 30 * time.Minute
 	}
 	if o.Discovery == 0 {
-		o.Discovery = 30 * time.Second
+		o.Discovery = 30 * time.Minute
 	}
 	cfg := &rest.Config{Host: "http://apiserver.sim", Transport: &APITransport{W: w}}
 	if !o.DefaultQPS {
